@@ -33,6 +33,7 @@ WITNESS = {
   'ifchain': ('samlang-printer', 'crates/samlang-printer/src/lib.rs', 'wx/witness/samlang_printer_roundtrip.rs', 'verif_witness_search'),
   'checkgates': ('samlang-compiler', 'crates/samlang-compiler/src/lib.rs', 'wx/witness/samlang_compiler_lib.rs', 'verif_witness_search_errors'),
   'visgate': ('samlang-compiler', 'crates/samlang-compiler/src/lib.rs', 'wx/witness/samlang_compiler_lib.rs', 'verif_witness_search_errors'),
+  'ssascope': ('samlang-compiler', 'crates/samlang-compiler/src/lib.rs', 'wx/witness/samlang_compiler_lib.rs', 'verif_witness_search_errors'),
   'depgraph': ('samlang-services', 'crates/samlang-services/src/dep_graph.rs', 'wx/witness/samlang_services_dep_graph.rs', 'verif_witness_search'),
 }
 
